@@ -5,6 +5,10 @@ Driver for C40: executable model of tgerr (TdModel.Model.C40).  Strings travel a
   flood <hexmsg>                      → none | <nanoseconds handed to clock.Timer>
   build <k> <hexdigits> <w1,w2,…>     → hex of Join(insertAt k digits words, "_")
   itoa <n>                            → hex of the decimal numeral
+  match <hexmsg|none> <code> <hex t> <hex,hex,…|.> <c,c,…|.>
+                                      → is=<b> iscode=<b> astype=<b> as=<b> str=<hex of Error()|->
+                                        (none = no *Error in the chain)
+  outcomes <hexmsg> <timerFired> <ctxDone> → results the select may produce, e.g. waited,cancelled | blocks
 -/
 import TdModel.Model.C40
 open TdModel TdModel.C40
@@ -23,6 +27,27 @@ def handle (line : String) : String :=
     match k.toNat?, ofHex ds, (ws.splitOn ",").mapM ofHex with
     | some k, some ds, some ws => toHex (joinUs (insertAt k ds ws))
     | _, _, _ => "bad-op"
+  | ["match", m, code, t, tt, codes] =>
+    let first : Option (Option RpcErr) :=
+      if m == "none" then some none
+      else match ofHex m, code.toInt? with
+        | some mb, some c => some (some (newErr c mb))
+        | _, _ => none
+    let ttL : Option (List Bytes) := if tt == "." then some [] else (tt.splitOn ",").mapM ofHex
+    let cL : Option (List Int) := if codes == "." then some [] else (codes.splitOn ",").mapM String.toInt?
+    match first, ofHex t, ttL, cL with
+    | some f, some t, some tt, some cs =>
+      let b (x : Bool) := if x then "1" else "0"
+      let str := match f with | some e => toHex (errorString e) | none => "-"
+      s!"is={b (isOneOf f tt)} iscode={b (isCode f cs)} astype={b (asType f t).isSome} as={b (asErr f).isSome} str={str}"
+    | _, _, _, _ => "bad-op"
+  | ["outcomes", h, tf, cd] => match ofHex h with
+    | some m =>
+      let os := floodWaitOutcomes (parse m) (tf == "1") (cd == "1")
+      if os.isEmpty then "blocks"
+      else ",".intercalate (os.map fun o => match o with
+        | .waited => "waited" | .cancelled => "cancelled" | .notFlood => "notflood")
+    | none => "bad-op"
   | ["itoa", n] => match n.toNat? with
     | some n => toHex (decimal n)
     | none => "bad-op"
